@@ -10,19 +10,23 @@ DRV = 'drv_c03'
 
 REGISTRY = {
     'id': 'C03',
-    'text': 'Lean (13 theorems): the two encodings of every +1 ion agree (ion_tables_agree, kernel evaluation of the adduct parser model '
-            'over the generated tables); chem_mass is linear over addition / scaling / merge_dicts / zero-dropping and equals the linear '
-            'form on known elements; averagine estimation is mass-exact over Q (estimate_comp_mass); and mass_eq_compMass_partial / '
-            'mass_eq_compMass_static (without / with global static rules incl. N-Term, C-Term and multi-residue targets): the model '
-            'of mass() equals chem_mass(comp_mass().composition) + delta + loss + k*eps EXACTLY over Q (eps = PROTON_MASS - (m(H) - m_e), '
-            'epsilon_bound: 2e-8 mono / 1.2e-4 average; k = charge resp. charge - 1) for every annotation whose written modifications '
-            'resolve self-consistently, every placement and multiplier, 18 ion types, any charge / isotope / loss, both modes; with isotope '
-            'labels mass IS the composition path (mass_label_path). Models of comp_mass / comp / _sequence_comp / _pop_delta_mass_mods / '
-            'condense_static_mods / isotope substitution are tied to /repo by differential correspondence (exact compositions, masses at '
-            '1e-7) and the identity is searched on the implementation at 1e-4 Da (mono) / 1e-3 Da + 5 ppm (average)',
-    'note': 'trusted: Lean kernel; translator; per-modification resolution (mass, composition, delta-only) and parse_static_mods are '
-            'parameters of the model (C10 / C12). The central theorems do not cover explicit adduct lists and use_isotope_on_mods / '
-            'isotope substitution (correspondence + oracle only; adduct counts != 1 are the known finding KF-C03-adduct-electron-count)',
+    'text': 'Lean (24 theorems): the two encodings of every +1 ion agree (ion_tables_agree); chem_mass is linear over addition / scaling / '
+            'merge_dicts / zero-dropping; averagine estimation is mass-exact over Q (estimate_comp_mass); the central identity '
+            'mass() = chem_mass(comp_mass().composition) + delta + loss + k*eps + row gaps EXACTLY over Q - mass_eq_compMass_partial '
+            '(no rules), mass_eq_compMass_static / _static_concrete (global rules incl. N-Term, C-Term, multi-residue targets, read by the '
+            'modelled parse_static_mods), mass_eq_compMass_adducts (explicit adduct lists: + adductGap = sum q*m_e*(count-1), the known '
+            'finding exactly; zero when every ion is stated once) - for every placement and multiplier, 18 ion types, any charge / '
+            'isotope / loss, both modes; eps = PROTON_MASS - (m(H) - m_e) (epsilon_bound: 2e-8 mono, 1.2e-4 average); with isotope labels '
+            'mass IS the composition path (mass_label_path). Exhaustive clause by kernel evaluation over the regenerated vocabularies '
+            'against this work package\'s element table: every Unimod row |mono - chem_mass(comp)| <= 1e-4 (unimod_mono_consistent); '
+            'average rows outside 1e-3 + 5 ppm are exactly six metal entries and every C,H,N,O,P,S row is inside '
+            '(unimod_avg_excluded, unimod_avg_chnops_consistent); PSI-MOD: exactly 63 of 1541 rows are not self-consistent '
+            '(psimod_mono_excluded); row_gap_mono / row_gap_avg turn a checked row into a bound on the gap term of the identity. '
+            'Models are tied to /repo by differential correspondence (exact compositions, masses at 1e-7; every line of the modelled '
+            'functions executed in the quick tier) and the identity is searched on the implementation at 1e-4 Da / 1e-3 Da + 5 ppm',
+    'note': 'trusted: Lean kernel; translators; per-value modification resolution is a parameter of the model (C10); the vocabulary tables '
+            'and the formula reader are the C10 / C15 work packages\' generated modules and model. Correspondence + oracle only: '
+            'use_isotope_on_mods / isotope substitution inside the identity, adduct lists together with global rules',
     'technique': 'Lean 4 proof about executable model + generated tables checked by kernel evaluation + differential correspondence '
                  '+ direct identity oracle',
 }
